@@ -181,8 +181,9 @@ def queryLoop {σ : Type} (c : Cur σ) (waitTimeout lim : Nat) : Nat → Nat →
         | (.data, s'') => queryLoop c waitTimeout lim fuel limit s'' acc
       else .ok acc.reverse
 
-/-- `cursor.emptyCursor`: `Get` is `io.EOF`; `WaitNewData` returns nil at once iff `waitReturnsAtOnce`
-(regenerated from the source), else it blocks until the context ends -/
+/-- `cursor.emptyCursor`: `Get` is `io.EOF`; `WaitNewData` returns nil at once iff `waitReturnsAtOnce` (regenerated from the
+source; that was finding F11), else — the code since 2ae8d4c — it is a blocking step: `<-ctx.Done(); return ctx.Err()`, which
+the caller sees as the wait's timeout -/
 def emptyCur (waitReturnsAtOnce : Bool) : Cur Unit :=
   { get := fun _ => (none, ()), wait := fun _ => (if waitReturnsAtOnce then .data else .timeout, ()) }
 
